@@ -798,19 +798,33 @@ def _is_pointless_string(node: ast.AST) -> bool:
 
 
 @processing.fix
-def delete_pointless_statements(source: str) -> str:
+def delete_pointless_statements(source: str, preserve: Collection[str] = frozenset()) -> str:
     """Delete pointless statements with no side effects from code
 
     Args:
         source (str): Python source code.
+        preserve (Collection[str], optional): Names to preserve
 
     Returns:
         str: Modified code
     """
     ast_tree = core.parse(source)
     safe_callables = parsing.safe_callable_names(ast_tree)
+    # Anything named _ is normally assumed to be unused. If _ is read somewhere (for instance
+    # _ = gettext.gettext) or must be preserved, it is a variable like any other.
+    underscore_is_a_variable = "_" in preserve or any(
+        core.walk(ast_tree, ast.Name(id="_", ctx=ast.Load))
+    )
+    underscore_template = (
+        ast.Name(id="_"),
+        ast.FunctionDef(name="_"),
+        ast.AsyncFunctionDef(name="_"),
+        ast.ClassDef(name="_"),
+    )
     for node in itertools.chain([ast_tree], parsing.iter_bodies_recursive(ast_tree)):
         for i, child in enumerate(node.body):
+            if underscore_is_a_variable and any(core.walk(child, underscore_template)):
+                continue
             if not core.has_side_effect(child, safe_callables):
                 if i > 0 or not _is_pointless_string(child):  # Docstring
                     yield child, None
